@@ -11,13 +11,13 @@ DEPENDS = {
     "C03": ["C12.1", "C12.2", "C12.4", "C10.1", "C04.1", "C04.2", "C04.3"],
     "C05": ["C04.1", "C04.2", "C04.3", "C04.4", "C01.4", "C01.5", "C01.6", "C10.4", "C12.1"],
     "C06": ["C03.17", "C03.9"],
-    "C08": ["C11.1", "C11.2", "C11.3", "C11.4", "C12.1"],
-    "C09": ["C11.3", "C11.4", "C10.1", "C02.3"],
-    "C10": ["C11.3", "C11.4"],
-    "C13": ["C07.4", "C20.1"],
-    "C14": ["C07.1", "C07.3", "C19.4"],
-    "C16": ["C07.1", "C14.1"],
-    "C17": ["C11.3", "C11.4", "C10.1", "C01.1", "C01.2"],
-    "C18": ["C11.2", "C11.3", "C11.4", "C10.1", "C10.2", "C09.4"],
+    "C08": ["C11.1", "C11.2", "C11.3", "C11.4", "C11.5", "C12.1"],
+    "C09": ["C11.3", "C11.4", "C11.5", "C10.1", "C02.3"],
+    "C10": ["C11.3", "C11.4", "C11.5"],
+    "C13": ["C07.4", "C07.6", "C20.1"],
+    "C14": ["C07.1", "C07.3", "C07.6", "C19.4"],
+    "C16": ["C07.1", "C07.6", "C14.1"],
+    "C17": ["C11.3", "C11.4", "C11.5", "C10.1", "C01.1", "C01.2"],
+    "C18": ["C11.2", "C11.3", "C11.4", "C11.5", "C10.1", "C10.2", "C09.4"],
     "C20": ["C07.3"],
 }
